@@ -315,7 +315,349 @@ func genUpdates() (string, error) {
 		return false
 	})
 	s += fmt.Sprintf("/-- number of `return` statements of the update branch (`if al != nil`) that lie AFTER the first filter-factory registration:\n0 = a rejected update is rejected before anything is changed. -/\ndef updateListener_lateErrorReturns : Nat := %d\n", lateReturns)
+	// ---- RemoveClusterHosts: the removal loop, statement by statement
+	rl, err := c12rRemoveLoop(mf)
+	if err != nil {
+		return "", err
+	}
+	s += rl
 	s += footer("Updates")
+	return s, nil
+}
+
+// ---------------------------------------------------------------------------------------------------------------------
+// RemoveClusterHosts (pkg/upstream/cluster/cluster_manager.go): the handler collects the hosts of the snapshot into a
+// slice, sorts it, and for every address of the call looks the address up with sort.Search and deletes the host found.
+// Regenerated: whether the slice is sorted before the loop, the predicate handed to sort.Search, the guard of the deletion,
+// and the deletion statements themselves (as list operations on the slice variable). Anything outside this vocabulary is
+// rejected (=> translation-unsupported).
+
+type c12rCtx struct {
+	slice   string // the slice variable (sortedHosts)
+	idx     string // Lean name of the index variable
+	idxGo   map[string]string
+	addrGo  string // the Go name of the address variable of the range loop
+	lenLean string // Lean rendering of len(slice)
+	atLean  func(ix string) string
+}
+
+// c12rNat renders an int-typed Go expression over the index variable, literals, len(slice) and + / -.
+func (c *c12rCtx) c12rNat(e ast.Expr) (string, error) {
+	switch x := e.(type) {
+	case *ast.ParenExpr:
+		return c.c12rNat(x.X)
+	case *ast.BasicLit:
+		if x.Kind == token.INT {
+			return x.Value, nil
+		}
+	case *ast.Ident:
+		if n, ok := c.idxGo[x.Name]; ok {
+			return n, nil
+		}
+	case *ast.CallExpr:
+		if (exprKey(x.Fun) == c.slice+".Len" && len(x.Args) == 0) || (exprKey(x.Fun) == "len" && len(x.Args) == 1 && exprKey(x.Args[0]) == c.slice) {
+			return c.lenLean, nil
+		}
+	case *ast.BinaryExpr:
+		l, err := c.c12rNat(x.X)
+		if err != nil {
+			return "", err
+		}
+		r, err := c.c12rNat(x.Y)
+		if err != nil {
+			return "", err
+		}
+		switch x.Op {
+		case token.ADD:
+			return "(" + l + " + " + r + ")", nil
+		case token.SUB:
+			return "(" + l + " - " + r + ")", nil
+		}
+	}
+	return "", fmt.Errorf("RemoveClusterHosts: unsupported index expression %s", exprKey(e))
+}
+
+// c12rStr renders a string-typed expression: the loop's address variable or slice[e].AddressString().
+func (c *c12rCtx) c12rStr(e ast.Expr) (string, bool) {
+	switch x := e.(type) {
+	case *ast.ParenExpr:
+		return c.c12rStr(x.X)
+	case *ast.Ident:
+		if x.Name == c.addrGo {
+			return "addr", true
+		}
+	case *ast.CallExpr:
+		if sel, ok := x.Fun.(*ast.SelectorExpr); ok && sel.Sel.Name == "AddressString" && len(x.Args) == 0 {
+			if ix, ok := sel.X.(*ast.IndexExpr); ok && exprKey(ix.X) == c.slice {
+				i, err := c.c12rNat(ix.Index)
+				if err == nil {
+					return c.atLean(i), true
+				}
+			}
+		}
+	}
+	return "", false
+}
+
+func (c *c12rCtx) c12rBool(e ast.Expr) (string, error) {
+	switch x := e.(type) {
+	case *ast.ParenExpr:
+		return c.c12rBool(x.X)
+	case *ast.UnaryExpr:
+		if x.Op == token.NOT {
+			s, err := c.c12rBool(x.X)
+			return "(!" + s + ")", err
+		}
+	case *ast.BinaryExpr:
+		switch x.Op {
+		case token.LAND, token.LOR:
+			l, err := c.c12rBool(x.X)
+			if err != nil {
+				return "", err
+			}
+			r, err := c.c12rBool(x.Y)
+			if err != nil {
+				return "", err
+			}
+			if x.Op == token.LAND {
+				return "(" + l + " && " + r + ")", nil
+			}
+			return "(" + l + " || " + r + ")", nil
+		}
+		cmp := map[token.Token]string{token.LSS: "<", token.LEQ: "≤", token.GTR: ">", token.GEQ: "≥", token.EQL: "=", token.NEQ: "≠"}
+		op, ok := cmp[x.Op]
+		if !ok {
+			break
+		}
+		if l, ok := c.c12rStr(x.X); ok {
+			if r, ok := c.c12rStr(x.Y); ok {
+				return "(decide (" + l + " " + op + " " + r + "))", nil
+			}
+			break
+		}
+		l, err := c.c12rNat(x.X)
+		if err != nil {
+			return "", err
+		}
+		r, err := c.c12rNat(x.Y)
+		if err != nil {
+			return "", err
+		}
+		return "(decide (" + l + " " + op + " " + r + "))", nil
+	}
+	return "", fmt.Errorf("RemoveClusterHosts: unsupported condition %s", exprKey(e))
+}
+
+// c12rDelete renders the statements of the "found it" branch as successive rebindings of the list `l`.
+func (c *c12rCtx) c12rDelete(stmts []ast.Stmt) (string, error) {
+	out := ""
+	bad := func(st ast.Stmt) error {
+		return fmt.Errorf("RemoveClusterHosts: statement outside the deletion vocabulary at %s", fset.Position(st.Pos()))
+	}
+	// slice[lo:hi] of the slice variable -> (lo, hi) Lean expressions ("" = absent)
+	sliceOf := func(e ast.Expr) (string, string, bool) {
+		se, ok := e.(*ast.SliceExpr)
+		if !ok || se.Slice3 || exprKey(se.X) != c.slice {
+			return "", "", false
+		}
+		lo, hi := "", ""
+		var err error
+		if se.Low != nil {
+			if lo, err = c.c12rNat(se.Low); err != nil {
+				return "", "", false
+			}
+		}
+		if se.High != nil {
+			if hi, err = c.c12rNat(se.High); err != nil {
+				return "", "", false
+			}
+		}
+		return lo, hi, true
+	}
+	sub := func(lo, hi string) string {
+		s := "l"
+		if hi != "" {
+			s = "(l.take " + hi + ")"
+		}
+		if lo != "" {
+			s = "(" + s + ".drop " + lo + ")"
+		}
+		return s
+	}
+	elemIdx := func(e ast.Expr) (string, bool) {
+		ix, ok := e.(*ast.IndexExpr)
+		if !ok || exprKey(ix.X) != c.slice {
+			return "", false
+		}
+		i, err := c.c12rNat(ix.Index)
+		return i, err == nil
+	}
+	for _, st := range stmts {
+		as, ok := st.(*ast.AssignStmt)
+		if !ok || as.Tok != token.ASSIGN {
+			return "", bad(st)
+		}
+		switch {
+		case len(as.Lhs) == 1 && len(as.Rhs) == 1 && exprKey(as.Lhs[0]) == c.slice:
+			// slice = append(slice[:a], slice[b:]...)   |   slice = slice[a:b]
+			if ce, ok := as.Rhs[0].(*ast.CallExpr); ok && exprKey(ce.Fun) == "append" && len(ce.Args) == 2 && ce.Ellipsis != token.NoPos {
+				lo1, hi1, ok1 := sliceOf(ce.Args[0])
+				lo2, hi2, ok2 := sliceOf(ce.Args[1])
+				if !ok1 || !ok2 || lo1 != "" || hi1 == "" {
+					return "", bad(st)
+				}
+				out += "  let l := " + sub(lo1, hi1) + " ++ " + sub(lo2, hi2) + "\n"
+				continue
+			}
+			if lo, hi, ok := sliceOf(as.Rhs[0]); ok {
+				out += "  let l := " + sub(lo, hi) + "\n"
+				continue
+			}
+			return "", bad(st)
+		case len(as.Lhs) == 1 && len(as.Rhs) == 1:
+			// slice[a] = slice[b]
+			d, ok1 := elemIdx(as.Lhs[0])
+			s, ok2 := elemIdx(as.Rhs[0])
+			if !ok1 || !ok2 {
+				return "", bad(st)
+			}
+			out += "  let l := sliceCopyElem l " + d + " " + s + "\n"
+		case len(as.Lhs) == 2 && len(as.Rhs) == 2:
+			// slice[a], slice[b] = slice[b], slice[a]
+			a, ok1 := elemIdx(as.Lhs[0])
+			b, ok2 := elemIdx(as.Lhs[1])
+			b2, ok3 := elemIdx(as.Rhs[0])
+			a2, ok4 := elemIdx(as.Rhs[1])
+			if !ok1 || !ok2 || !ok3 || !ok4 || a != a2 || b != b2 {
+				return "", bad(st)
+			}
+			out += "  let l := sliceSwap l " + a + " " + b + "\n"
+		default:
+			return "", bad(st)
+		}
+	}
+	return out, nil
+}
+
+func c12rRemoveLoop(mf *ast.File) (string, error) {
+	fd := findFunc(mf, "clusterManager", "RemoveClusterHosts")
+	if fd == nil || len(fd.Type.Params.List) != 2 || len(fd.Type.Params.List[1].Names) != 1 {
+		return "", fmt.Errorf("clusterManager.RemoveClusterHosts(clusterName, addrs) not found")
+	}
+	addrsParam := fd.Type.Params.List[1].Names[0].Name
+	// the handler: the function literal passed to cm.UpdateHosts
+	var handler *ast.FuncLit
+	ast.Inspect(fd.Body, func(n ast.Node) bool {
+		if fl, ok := n.(*ast.FuncLit); ok && handler == nil && len(fl.Type.Params.List) == 2 {
+			handler = fl
+			return false
+		}
+		return true
+	})
+	if handler == nil {
+		return "", fmt.Errorf("RemoveClusterHosts: host handler literal not found")
+	}
+	var loop *ast.RangeStmt
+	loopAt := -1
+	for i, st := range handler.Body.List {
+		if r, ok := st.(*ast.RangeStmt); ok && exprKey(r.X) == addrsParam {
+			if loop != nil {
+				return "", fmt.Errorf("RemoveClusterHosts: more than one loop over the addresses")
+			}
+			loop, loopAt = r, i
+		}
+	}
+	if loop == nil || loop.Value == nil {
+		return "", fmt.Errorf("RemoveClusterHosts: `for _, addr := range %s` not found at the top level of the handler", addrsParam)
+	}
+	if k, ok := loop.Key.(*ast.Ident); !ok || k.Name != "_" {
+		return "", fmt.Errorf("RemoveClusterHosts: the loop uses the index of the address")
+	}
+	if len(loop.Body.List) != 2 {
+		return "", fmt.Errorf("RemoveClusterHosts: the loop body is not `i := sort.Search(…); if … { … }`")
+	}
+	// i := sort.Search(LEN, func(k int) bool { return PRED })
+	ivar, rhs, ok := assignParts(loop.Body.List[0], token.DEFINE)
+	se, ok2 := rhs.(*ast.CallExpr)
+	if !ok || !ok2 || exprKey(se.Fun) != "sort.Search" || len(se.Args) != 2 {
+		return "", fmt.Errorf("RemoveClusterHosts: first loop statement is not `i := sort.Search(n, pred)`")
+	}
+	pl, ok := se.Args[1].(*ast.FuncLit)
+	if !ok || len(pl.Type.Params.List) != 1 || len(pl.Type.Params.List[0].Names) != 1 || len(pl.Body.List) != 1 {
+		return "", fmt.Errorf("RemoveClusterHosts: the sort.Search predicate is not a single-return literal")
+	}
+	pr, ok := pl.Body.List[0].(*ast.ReturnStmt)
+	if !ok || len(pr.Results) != 1 {
+		return "", fmt.Errorf("RemoveClusterHosts: the sort.Search predicate is not a single-return literal")
+	}
+	// the slice variable: what the search length is taken of
+	var slice string
+	switch n := se.Args[0].(type) {
+	case *ast.CallExpr:
+		if sel, ok := n.Fun.(*ast.SelectorExpr); ok && sel.Sel.Name == "Len" && len(n.Args) == 0 {
+			slice = exprKey(sel.X)
+		} else if exprKey(n.Fun) == "len" && len(n.Args) == 1 {
+			slice = exprKey(n.Args[0])
+		}
+	}
+	if slice == "" {
+		return "", fmt.Errorf("RemoveClusterHosts: the sort.Search length is not the length of a slice variable")
+	}
+	// sorted before the loop? `sort.Sort(slice)` at the top level of the handler, before the loop, slice not reassigned after
+	sorts := false
+	for _, st := range handler.Body.List[:loopAt] {
+		if isCallStmt(st, "sort.Sort", 1) && exprKey(st.(*ast.ExprStmt).X.(*ast.CallExpr).Args[0]) == slice {
+			sorts = true
+		} else if lhs, _, ok := assignParts(st, token.ASSIGN); ok && lhs == slice {
+			sorts = false
+		}
+	}
+	// the result handed to the cluster: c.UpdateHosts(NewHostSet(slice)) after the loop
+	installs := 0
+	for _, st := range handler.Body.List[loopAt+1:] {
+		ast.Inspect(st, func(n ast.Node) bool {
+			if ce, ok := n.(*ast.CallExpr); ok && exprKey(ce.Fun) == "NewHostSet" && len(ce.Args) == 1 && exprKey(ce.Args[0]) == slice {
+				installs++
+			}
+			return true
+		})
+	}
+	if installs != 1 {
+		return "", fmt.Errorf("RemoveClusterHosts: the handler does not install NewHostSet(%s) exactly once after the loop", slice)
+	}
+	addrVar := exprKey(loop.Value)
+	predCtx := &c12rCtx{slice: slice, idxGo: map[string]string{pl.Type.Params.List[0].Names[0].Name: "k"}, addrGo: addrVar, lenLean: "n",
+		atLean: func(ix string) string { return "(at_ " + ix + ")" }}
+	pred, err := predCtx.c12rBool(pr.Results[0])
+	if err != nil {
+		return "", err
+	}
+	ifs, ok := loop.Body.List[1].(*ast.IfStmt)
+	if !ok || ifs.Init != nil || ifs.Else != nil {
+		return "", fmt.Errorf("RemoveClusterHosts: second loop statement is not a plain `if`")
+	}
+	gctx := &c12rCtx{slice: slice, idxGo: map[string]string{ivar: "i"}, addrGo: addrVar, lenLean: "n",
+		atLean: func(ix string) string { return "(at_ " + ix + ")" }}
+	guard, err := gctx.c12rBool(ifs.Cond)
+	if err != nil {
+		return "", err
+	}
+	dctx := &c12rCtx{slice: slice, idxGo: map[string]string{ivar: "i"}, addrGo: addrVar, lenLean: "l.length",
+		atLean: func(ix string) string { return "ERR" }}
+	del, err := dctx.c12rDelete(ifs.Body.List)
+	if err != nil {
+		return "", err
+	}
+	s := "\nset_option linter.unusedVariables false\n/-- `RemoveClusterHosts`: `sort.Sort(" + slice + ")` precedes the loop over the addresses. -/\n"
+	s += "def removeHosts_sorts : Bool := " + boolLit(sorts) + "\n"
+	s += "/-- the predicate handed to `sort.Search` (`n` = current length, `at_ k` = address of element `k`, `addr` = the address looked up). -/\n"
+	s += "def removeSearchPred (n : Nat) (at_ : Nat → String) (addr : String) (k : Nat) : Bool :=\n  " + pred + "\n"
+	s += "/-- the guard of the deletion (`i` = result of the search). -/\n"
+	s += "def removeFound (n : Nat) (at_ : Nat → String) (addr : String) (i : Nat) : Bool :=\n  " + guard + "\n"
+	s += "/-- `s[dst] = s[src]` -/\ndef sliceCopyElem {α : Type} (l : List α) (dst src : Nat) : List α :=\n  match l[src]? with\n  | some x => l.set dst x\n  | none => l\n"
+	s += "/-- `s[a], s[b] = s[b], s[a]` -/\ndef sliceSwap {α : Type} (l : List α) (a b : Nat) : List α :=\n  match l[a]?, l[b]? with\n  | some x, some y => (l.set a y).set b x\n  | _, _ => l\n"
+	s += "/-- the statements of the `found it` branch, in source order, as operations on the slice `l` (`i` = index found). -/\n"
+	s += "def removeDelete {α : Type} (l : List α) (i : Nat) : List α :=\n" + del + "  l\n"
 	return s, nil
 }
 
